@@ -689,7 +689,19 @@ Fixpoint gpb_at (rev_gr : list (Z * Z)) (idx : Z) : Z :=
   end.
 
 (* ---------- operations, transactions, blocks ---------- *)
+(* the operations that can be wrapped by notifications of a helper contract (OLim) *)
+Inductive lop :=
+| LNeoT (from to : N) (a : Z)
+| LGasT (from to : N) (a : Z) (d : gdata)
+| LVote (acc : N) (k : option N).
+
 Inductive op :=
+| OLim (pre : Z) (o : lop) (post : Z) (nacct : N)
+    (* one execution: a helper contract emits [pre] notifications, the native method [o] is called, the helper emits
+       [post] more.  [nacct] is the account of the helper contract itself: its onNEP17Payment emits (amount mod 1000)
+       notifications.  Every native post-effect (Transfer, Vote, CandidateStateChanged) is a notification too, and
+       since Echidna the 513th notification of an execution fails: AddNotification returns an error, the native
+       panics, the execution FAULTs *)
 | ONeoT (from to : N) (a : Z)
 | OGasT (from to : N) (a : Z) (d : gdata)
 | OVote (acc : N) (k : option N)
@@ -729,10 +741,73 @@ Definition committee_witness (st : state) (t : tx) : bool :=
   | l => if list_eq_dec N.eq_dec (sort_keys l) (committee_sorted st) then true else false
   end.
 
+(* ---------- the notification limit (interop.MaxNotificationCount, enforced from Echidna on) ---------- *)
+Definition notif_limit : Z := 512.
+
+(* the post-effect as an action that can FAIL: n more notifications when [count] were emitted already;
+   None = AddNotification returned an error *)
+Definition add_notifs (count n : Z) : option Z :=
+  if count + n >? notif_limit then None else Some (count + n).
+
+(* the Transfer events one execution added (the ledger's list is newest first) *)
+Definition new_events (l l' : ledger) : list event :=
+  firstn (length (l_events l') - length (l_events l)) (l_events l').
+
+(* the notifications of the helper contract's onNEP17Payment: called once for every transfer / mint to it *)
+Definition cb_notifs (nacct : N) (evs : list event) : Z :=
+  fold_right (fun e s => (if opt_N_eqb (eto e) (Some nacct) then eamt e mod 1000 else 0) + s) 0 evs.
+
+(* native notifications that are not Transfer events: "Vote" of a successful vote, "CandidateStateChanged" of a
+   registration by payment that changes the candidate's state *)
+Definition own_notifs (l : ledger) (o : lop) (r : option bool) : Z :=
+  match o, r with
+  | LVote _ _, Some true => 1
+  | LGasT _ to _ (DKey k), Some true =>
+      match kind_of to with
+      | KNeo => let c := aget cand0 k (l_cands l) in if cpresent c && creg c then 0 else 1
+      | _ => 0
+      end
+  | _, _ => 0
+  end.
+
+Definition lop_notifs (l l' : ledger) (o : lop) (r : option bool) (nacct : N) : Z :=
+  Z.of_nat (length (new_events l l')) + own_notifs l o r + cb_notifs nacct (new_events l l').
+
+(* [body] = what the native method does when no notification fails.  A failing notification panics: the execution
+   faults as a whole, whatever was done before it *)
+Definition run_lim (st : state) (pre post : Z) (o : lop) (nacct : N) (body : result) : result :=
+  match add_notifs 0 pre with
+  | None => None
+  | Some c1 =>
+      match body with
+      | None => None
+      | Some (st', r) =>
+          match add_notifs c1 (lop_notifs (L st) (L st') o r nacct) with
+          | None => None
+          | Some c2 =>
+              match add_notifs c2 post with
+              | None => None
+              | Some _ => Some (st', r)
+              end
+          end
+      end
+  end.
+
+(* the native method of a wrapped operation, as if no notification could fail *)
+Definition run_lop (st : state) (t : tx) (o : lop) : result :=
+  let s := t_signer t in
+  let w := t_wit t in
+  match o with
+  | LNeoT from to a => neo_transfer st (N.eqb from w) from to a
+  | LGasT from to a d => gas_transfer st (N.eqb from w) s w from to a d
+  | LVote acc k => vote st (N.eqb acc w) acc k
+  end.
+
 Definition run_op (st : state) (t : tx) : result :=
   let s := t_signer t in
   let w := t_wit t in
   match t_op t with
+  | OLim pre o post nacct => run_lim st pre post o nacct (run_lop st t o)
   | ONeoT from to a => neo_transfer st (N.eqb from w) from to a
   | OGasT from to a d => gas_transfer st (N.eqb from w) s w from to a d
   | OVote acc k => vote st (N.eqb acc w) acc k
